@@ -66,23 +66,21 @@ impl RelativeTo {
             .offset
             .map(|record| {
                 let UtcOffsetRecordOrZ::Offset(offset) = record else {
-                    return (None, true);
+                    return Ok((None, true));
                 };
                 let hours_in_ns = i64::from(offset.hour) * 3_600_000_000_000_i64;
                 let minutes_in_ns = i64::from(offset.minute) * 60_000_000_000_i64;
                 let seconds_in_ns = i64::from(offset.second) * 1_000_000_000_i64;
-                let ns = offset
-                    .fraction
-                    .and_then(|x| x.to_nanoseconds())
-                    .unwrap_or(0);
-                (
+                let ns = crate::parsers::fraction_to_billionths(offset.fraction)?;
+                Ok::<_, crate::TemporalError>((
                     Some(
                         (hours_in_ns + minutes_in_ns + seconds_in_ns + i64::from(ns))
                             * i64::from(offset.sign as i8),
                     ),
                     false,
-                )
+                ))
             })
+            .transpose()?
             .unwrap_or((None, false));
 
         let calendar = result
